@@ -149,7 +149,10 @@ def E_eckhardt(rng, tier):
             for kw in ({}, {"timestep_type": 0}, {"tau": 1e-300}, {"tau": 0.0},
                        {"thresh": 1.0, "BFI_max": 1.0}, {"thresh": 2.0},
                        {"timestep_type": 5}, {"BFI_max": -1.0},
-                       {"tau": float("nan")}):
+                       {"tau": float("nan")}, {"timestep_type": -1},
+                       {"timestep_type": 2}, {"timestep_type": -3},
+                       {"timestep_type": -10 ** 8}, {"timestep_type": 2 ** 31 - 1},
+                       {"timestep_type": -2 ** 31}):
                 yield f"n={n}|{cls}", (lambda v=v, kw=kw: signatures.eckhardt(v, **kw))
 
 
@@ -210,6 +213,15 @@ def E_var2h(rng, tier):
         idx2 = pd.DatetimeIndex(["1946-01-01 00:10", "2018-06-01 00:20"])
         dutils.var2h(pd.Series([1.0, 2.0], index=idx2), 3600)
     yield "long-span-72y-daily", long_daily
+    # the progress display of the kernel (point and period counts of every width)
+    for npt, step in ((5, 600), (1000, 360), (120000, 360), (1200000, 300), (2500000, 7)):
+        def disp(npt=npt, step=step):
+            idx = pd.date_range("2001-03-01 00:07", periods=npt, freq=f"{step}s")
+            se = pd.Series(np.ones(npt), index=idx)
+            for rain in (False, True):
+                dutils.var2h(se, 3600, display=True, rainfall=rain)
+            dutils.var2h(se, 60 if npt <= 120000 else 3600, display=True)
+        yield f"display|n={npt}|step={step}s", disp
 
 
 def E_datehelpers(rng, tier):
@@ -304,6 +316,12 @@ def E_adtest(rng, tier):
                 metrics.anderson_darling_test(u)
                 metrics.cramer_von_mises_test(u)
             yield f"n={n}|{cls}", thunk
+    # long, evenly spaced samples (plotting positions): the small-probability branch of
+    # the finite-sample correction, at lengths whose square does not fit 32 bits
+    for n in (46340, 46341, 65536, 92682, 200000):
+        def reg(n=n):
+            metrics.anderson_darling_test((np.arange(n) + 0.5) / n)
+        yield f"n={n}|evenly-spaced", reg
 
 
 def E_armodels(rng, tier):
